@@ -90,14 +90,16 @@ structure PendInv (s : LL) (pr : Proc) (I : Nat) : Prop where
   far  : room s < 32767
 
 def evCost : In → Nat
-  | .cancel _ => 0
-  | _ => 1
+  | .ev _ _ => 1
+  | .lost => 1
+  | _ => 0
 
 /-- what one radio callback does to a link layer with `pr` pending for instant `I` -/
 inductive Outcome (pr : Proc) (I : Nat) (s : LL) (i : In) (s' : LL) : Prop where
   | ended (hup : s'.up = false) (hi : i = .lost) (hto : s.timeout * 10000 ≤ s.sinceLast)
   | applied (hup : s'.up = true) (hp : s'.pending = none) (hc : s'.counter = I) (hl : s'.lastLat = 1)
       (hpar : params s' = carried (params s) pr)
+  | closed (hup : s'.up = false) (hi : i = .disconnect)
   | refused (hup : s'.up = false) (hc : s'.counter = I) (hr : pr.Refused)
   | waiting (inv : PendInv s' pr I) (hne : s'.counter ≠ I) (hpar : params s' = params s)
       (hm : room s' + evCost i ≤ room s)
@@ -215,6 +217,106 @@ theorem advance_step (s s1 : LL) (pr : Proc) (I k : Nat) (hv : pr.Valid ∨ pr.R
     refine ⟨rfl, ?_, hc1, by omega, by omega⟩
     intro he
     exact hne (by rw [hin, he])
+
+/-! ### the link layer only goes down through `force_disconnect` -/
+
+theorem handleCtrl_up (s : LL) (c : Ctrl) : (handleCtrl s c).1.up = s.up := by
+  cases c with
+  | proc pr i =>
+    simp only [handleCtrl]
+    split <;> rfl
+  | phyNoChange => rfl
+  | terminate r => rfl
+  | other => rfl
+
+theorem handleQueue_up (q : List Pdu) : ∀ s : LL, (handleQueue s q).1.up = s.up := by
+  induction q with
+  | nil => intro s; rfl
+  | cons p rest ih =>
+    intro s
+    by_cases h3 : p.llid = 3
+    · by_cases hd : (handleCtrl s (classify p.payload)).2 = true
+      · simp [handleQueue, h3, hd, handleCtrl_up]
+      · by_cases hps : (handleCtrl s (classify p.payload)).1.pending.isSome = true
+        · simp [handleQueue, h3, hd, hps, handleCtrl_up]
+        · have e : handleQueue s (p :: rest) = handleQueue (handleCtrl s (classify p.payload)).1 rest := by
+            simp [handleQueue, h3, hd, hps]
+          rw [e, ih, handleCtrl_up]
+    · by_cases h2' : p.llid = 2
+      · have e : handleQueue s (p :: rest) = handleQueue s rest := by simp [handleQueue, h2']
+        rw [e, ih]
+      · simp [handleQueue, h3, h2']
+
+theorem handleReceived_up (s : LL) : (handleReceived s).1.up = s.up := by
+  unfold handleReceived
+  split
+  · rfl
+  · exact handleQueue_up _ _
+
+theorem handlePending_up (s : LL) : (handlePending s).1.up = s.up := by
+  cases hpp : s.pending with
+  | none => simp [handlePending, hpp]
+  | some pr =>
+    by_cases he : s.instant = s.counter
+    · simp [handlePending, hpp, he, (applyProc_frame s pr).1]
+    · simp [handlePending, hpp, he]
+
+/-- `finishEvent` on a link that is up: if the link is down afterwards, the deferred PDU is gone -/
+theorem finishEvent_dead (s : LL) (hup : s.up = true) (hd : (finishEvent s).up = false) :
+    (finishEvent s).pending = none := by
+  by_cases h2 : (handlePending s).2 = true
+  · simp [finishEvent, h2, forceDisconnect]
+  · have e : finishEvent s = (handlePending s).1 := by simp [finishEvent, h2]
+    rw [e, handlePending_up, hup] at hd
+    exact absurd hd (by decide)
+
+/-- `end_event` on a link that is up: if the link is down afterwards, the deferred PDU is gone -/
+theorem endEvent_dead (s : LL) (pdus : List Pdu) (listen : Bool) (hup : s.up = true)
+    (hd : (endEvent s pdus listen).up = false) : (endEvent s pdus listen).pending = none := by
+  by_cases hr : (handleReceived (enqueue s pdus)).2 = true
+  · simp [endEvent, hr, forceDisconnect]
+  · have e : endEvent s pdus listen
+        = finishEvent (planNext (handleReceived (enqueue s pdus)).1 listen) := by
+      simp [endEvent, hr]
+    rw [e] at hd ⊢
+    refine finishEvent_dead _ ?_ hd
+    show (handleReceived (enqueue s pdus)).1.up = true
+    rw [handleReceived_up]
+    exact hup
+
+theorem quietEvent_dead (s : LL) (h : s.up = false → s.pending = none)
+    (hd : (quietEvent s).up = false) : (quietEvent s).pending = none := by
+  by_cases hup : s.up = true
+  · have e : quietEvent s = endEvent s [] false := by simp [quietEvent, hup]
+    rw [e] at hd ⊢
+    exact endEvent_dead s [] false hup hd
+  · have hup' : s.up = false := by cases hs : s.up <;> simp_all
+    have e : quietEvent s = s := by simp [quietEvent, hup']
+    rw [e]
+    exact h hup'
+
+/-- a local disconnect ends the connection and drops the deferred PDU -/
+theorem localDisconnect_down (s : LL) (hup : s.up = true) :
+    (localDisconnect s).up = false ∧ (localDisconnect s).pending = none := by
+  have h1 : (quietEvent s).up = false → (quietEvent s).pending = none :=
+    quietEvent_dead s (fun h => by rw [hup] at h; exact absurd h (by decide))
+  have h2 := quietEvent_dead (quietEvent s) h1
+  have h3 := quietEvent_dead (quietEvent (quietEvent s)) h2
+  by_cases h : (quietEvent (quietEvent (quietEvent s))).up = true
+  · simp [localDisconnect, h, forceDisconnect]
+  · have h' : (quietEvent (quietEvent (quietEvent s))).up = false := by
+      cases hs : (quietEvent (quietEvent (quietEvent s))).up <;> simp_all
+    have e : localDisconnect s = quietEvent (quietEvent (quietEvent s)) := by
+      simp [localDisconnect, h']
+    rw [e]
+    exact ⟨h', h3 h'⟩
+
+theorem cancelEvent_up (s : LL) (t : Nat) : (cancelEvent s t).up = s.up := by
+  by_cases hch : s.changed = true
+  · simp [cancelEvent, hch]
+  · by_cases hl1 : s.lastLat = 1
+    · simp [cancelEvent, hl1]
+    · simp [cancelEvent, hch, hl1]
 
 theorem cancel_noop (s : LL) (t : Nat) (h : s.lastLat = 1) : cancelEvent s t = s := by
   simp [cancelEvent, h]
